@@ -109,6 +109,12 @@ def render_all(txns, w, views=False):
                 O.fail('C12.json.figure.credits_total', w, round(figures['credits_total'], 2), js['credits_total'], 'export_json summary vs analysed stats')
             if abs(js['gross_spending'] - figures['spending_total']) > 0.005:
                 O.fail('C12.json.figure.spending', w, round(figures['spending_total'], 2), js['gross_spending'], 'export_json summary vs analysed stats')
+            if abs(js['total_spending'] - (figures['spending_total'] - figures['credits_total'])) > 0.005:
+                O.fail('C12.json.figure.net_spending', w, round(figures['spending_total'] - figures['credits_total'], 2), js['total_spending'], 'export_json summary total_spending vs spending - credits')
+            if js['net_cash_flow'] is not None and abs(js['net_cash_flow'] - figures['cash_flow']) > 0.005:
+                O.fail('C12.json.figure.cash_flow', w, round(figures['cash_flow'], 2), js['net_cash_flow'], 'export_json summary vs analysed stats')
+            if abs(js['transfers_total'] - abs(figures['transfers_net'])) > 0.005:
+                O.fail('C12.json.figure.transfers', w, round(abs(figures['transfers_net']), 2), js['transfers_total'], 'export_json summary vs analysed stats')
         for name in ('text', 'text_sections'):
             if name not in outs:
                 continue
